@@ -377,10 +377,15 @@ class Server:
                 if isinstance(y, RemoteException):
                     y = y.exc
                 if not fut.cancelled():
-                    if isinstance(y, BaseException):
-                        fut.set_exception(y)
-                    else:
-                        fut.set_result(y)
+                    try:
+                        if isinstance(y, BaseException):
+                            fut.set_exception(y)
+                        else:
+                            fut.set_result(y)
+                    except concurrent.futures.InvalidStateError:
+                        # The caller timed out (or the stream was closed) and cancelled
+                        # the future after the check above. The result is abandoned.
+                        pass
                 fut.data['t2'] = perf_counter()
                 q_notify.put(1)
         finally:
@@ -616,6 +621,16 @@ class AsyncServer:
             async with pipeline_notfull:
                 pipeline_notfull.notify()
 
+        def resolve(fut, y):
+            # This runs in the event loop's thread.
+            if fut.done():
+                # Cancelled (e.g. the caller timed out) since this was scheduled.
+                return
+            if isinstance(y, BaseException):
+                fut.set_exception(y)
+            else:
+                fut.set_result(y)
+
         notifications = self._pipeline_notfull_notifications  # {}
 
         while True:
@@ -636,10 +651,7 @@ class AsyncServer:
             if not fut.cancelled():
                 if isinstance(y, RemoteException):
                     y = y.exc
-                if isinstance(y, BaseException):
-                    loop.call_soon_threadsafe(fut.set_exception, y)
-                else:
-                    loop.call_soon_threadsafe(fut.set_result, y)
+                loop.call_soon_threadsafe(resolve, fut, y)
                 fut.data['t2'] = perf_counter()
 
             f = asyncio.run_coroutine_threadsafe(notify(), loop)
